@@ -71,14 +71,16 @@ Theorem C02_relink_id : forall (A : Type) (a : list A), relink a = Some a.
 Proof. exact @relink_ok. Qed.
 Print Assumptions C02_relink_id.
 
-(* group start/end notifications are balanced for ANY order of tests (so also after shuffling) *)
-Theorem C02_groups_balanced : forall gf nf ri l n, (forall t, In t l -> (t_id t < n)%nat) ->
-  exists mid, fst (run_all_tests gf nf ri l) = ETestsStarted :: mid ++ [ETestsEnded] /\ Groups mid.
+(* group start/end notifications are balanced for ANY order of tests (so also after shuffling), and every test that is started
+   lies inside a segment opened with a test of its own group (grp: the group string of an id) *)
+Theorem C02_groups_balanced : forall gf nf ri l n grp, (forall t, In t l -> test_fits n grp t) ->
+  exists mid, fst (run_all_tests gf nf ri l) = ETestsStarted :: mid ++ [ETestsEnded] /\ Groups grp mid.
 Proof. exact groups_balanced_grammar. Qed.
 Print Assumptions C02_groups_balanced.
 
 (* what the oracle's automaton and permutation test mean *)
-Theorem C02_word_shape_sound : forall n w, word_shape n w = true -> exists mid, w = ETestsStarted :: mid ++ [ETestsEnded] /\ Groups mid.
+Theorem C02_word_shape_sound : forall grp n w,
+  word_shape n grp w = true -> exists mid, w = ETestsStarted :: mid ++ [ETestsEnded] /\ Groups grp mid.
 Proof. exact word_shape_sound. Qed.
 Print Assumptions C02_word_shape_sound.
 
